@@ -44,9 +44,13 @@ def bitstreamOK (data : Bytes) : Bool :=
   vp8OK (splitAlphaAndBitstream data).2 || vp8lOK (splitAlphaAndBitstream data).2
 
 def accepted (s : MuxState) : Bool :=
-  decide (validate s = .ok ()) &&
-  s.frames.all (fun f => bitstreamOK f.data) &&
-  (!needsVP8X s || decide (exactRiffSize s ≤ 4294967286))
+  decide (validate s = .ok ()) && s.frames.all (fun f => bitstreamOK f.data)
+
+/-- the extended file's RIFF size fits the readers' limit 2^32 − 10 (`assembleExtended` returns an error
+    otherwise; a simple file always fits once `validate` has passed) -/
+def Fits (s : MuxState) : Prop := needsVP8X s = true → exactRiffSize s ≤ 4294967286
+
+instance (s : MuxState) : Decidable (Fits s) := by unfold Fits; infer_instance
 
 /-- see `Webp.Props.C14.mux_demux` -/
 def Accepted (s : MuxState) : Prop := accepted s = true
